@@ -184,7 +184,7 @@ class Task:
                 res["inconclusive"].append("%s %s: z3 answered %s (%s)" % (kernel, shape, r, what))
         s = z3.Solver()
         s.set("timeout", 120000)
-        for c in constraints:
+        for c in list(constraints) + list(getattr(ex, "axioms", [])):
             s.add(c)
         s.add(z3.Not(z3.Or([z3.And(o.pc) if o.pc else z3.BoolVal(True) for o in outcomes])))
         t1 = time.time()
